@@ -52,7 +52,9 @@ def const(v):
 
 
 def fmt_term(t) -> str:
-    if not isinstance(t, tuple):
+    if isinstance(t, AVal):
+        return fmt_term(t.term)
+    if not isinstance(t, tuple) or not t:
         return repr(t)
     k = t[0]
     if k == 'const':
@@ -207,6 +209,9 @@ GENERIC_NAMES = {'close', 'cancel', 'get', 'set', 'append', 'send', 'connect', '
                  'extend', 'dispose', 'put_nowait', 'get_nowait', 'empty', 'wait', 'read', 'write', 'setup', 'peek',
                  'done', 'result', 'exception', 'items', 'keys', 'values', 'update', 'copy', 'encode', 'decode',
                  'on_completed', 'pipe', 'reconnect', 'route', 'response', 'stream', 'channel', '__init__'}
+
+
+LOGGING_MODULES = {'rsocket.frame_logger', 'rsocket.logger'}
 
 
 class Options:
@@ -1511,7 +1516,10 @@ class Interp:
                             continue
                         funcs.append(t)
                 if not found:
-                    ext = True  # inherited from an external base (asyncio.Queue.put_nowait ...)
+                    if self.repo.attr_assignments(c, name):
+                        app = True  # a callable stored in an instance attribute (application callback)
+                    else:
+                        ext = True  # inherited from an external base (asyncio.Queue.put_nowait ...)
             funcs = list(dict.fromkeys(funcs))
             if app:
                 return {'kind': 'app', 'name': name, 'recv': base, 'funcs': funcs}
@@ -1642,6 +1650,9 @@ class Interp:
                     s.emit('dispatch', e, target=f, among=funcs)
                     yield from self._inline(e, f, callee, pos, kw, s, awaited)
                 return
+            if all(f.module.name in LOGGING_MODULES for f in funcs):
+                yield from atomic('external', funcs)
+                return
             raises = 'app' in self.opt.exc and self._summary_may_raise(funcs)
             yield from atomic('atomic_repo', funcs, raises=raises)
             return
@@ -1732,6 +1743,8 @@ class Interp:
             return False  # recursion
         if any('abstractmethod' in d for d in f.decorators):
             return False
+        if f.module.name in LOGGING_MODULES:
+            return False  # logging helpers: many type-case branches, no effect any rule looks at
         if self.opt.inline_filter is not None and not self.opt.inline_filter(f):
             return False
         return True
